@@ -227,6 +227,12 @@ class Engine:
     def __init__(self, mod, contracts=None, externs=None, options=None):
         self.mod = mod
         self.contracts = contracts or {}      # demangled name -> Contract
+        if mod.ptr_bits == 16:
+            # 16-bit-int target (AVR): int16_t is `int` and int32_t is `long`, so the demangled signatures differ from the ones the
+            # contracts are keyed by; contracts are looked up under the translated name as well
+            self.contracts = dict(self.contracts)
+            for k, v in list(self.contracts.items()):
+                self.contracts.setdefault(avr_name(k), v)
         self.externs = externs or {}          # mangled or demangled name -> callable(ex, st, ins, args)
         self.opt = dict(max_paths=4000, max_inline_depth=12, unroll=40, feas_timeout_ms=3000,
                         check_feasibility=True)
@@ -393,6 +399,9 @@ class Engine:
                 return BV(0, rty.bits) if isinstance(val, ir.Zero) else self.fresh('undef', rty.bits)
             if isinstance(rty, ir.PtrTy):
                 return Ptr(None, BV(0, self.pbits))
+            if isinstance(rty, (ir.StructTy, ir.ArrTy)):
+                n = self.mod.size_of(rty)
+                return BV(0, 8 * n) if isinstance(val, ir.Zero) else self.fresh('undef', 8 * n)
             raise OutOfReach('aggregate undef/zero operand')
         if isinstance(val, ir.GlobalRef):
             return self.global_ptr(st, val.name)
@@ -419,6 +428,25 @@ class Engine:
                 a = self.const_value(st, val.args[0][0], val.args[0][1])
                 return simp(self.cast(val.op, a, self.mod.resolve(val.ty).bits))
         raise OutOfReach('constant %r' % (val,))
+
+    # ---- first-class aggregates: a struct / array VALUE is the bit-vector of its memory layout (little endian bytes) -------
+    def _agg_path(self, ty, idx):
+        """(byte offset, element type) of the element selected by the constant index path"""
+        off = 0
+        for k in idx:
+            rty = self.mod.resolve(ty)
+            if isinstance(rty, ir.StructTy):
+                off += self.mod.elem_offset(rty, k)
+                ty = rty.elems[k]
+            elif isinstance(rty, ir.ArrTy):
+                off += k * self.mod.size_of(rty.elem)
+                ty = rty.elem
+            else:
+                raise OutOfReach('aggregate path into %r' % (rty,))
+        return off, ty
+
+    def _is_agg(self, ty):
+        return isinstance(self.mod.resolve(ty), (ir.StructTy, ir.ArrTy))
 
     # ---- operand evaluation ---------------------------------------------------
     def ev(self, st, ty, val):
@@ -607,6 +635,13 @@ class Engine:
             if rty.bits != 8 * n:
                 v = simp(z3.Extract(rty.bits - 1, 0, v))
             return v
+        if isinstance(rty, (ir.StructTy, ir.ArrTy)):
+            n = self.mod.size_of(rty)
+            self._bounds_ob(st, ptr, n, ins)
+            v = self._load_raw(st.bytes, st.mem, ptr, n, st)
+            if isinstance(v, (Ptr, FnPtr)):
+                v = self.ptr_to_bv(v)
+            return v
         raise OutOfReach('load of type %r' % (ty,))
 
     def _bounds_ob(self, st, ptr, n, ins):
@@ -700,6 +735,12 @@ class Engine:
             if ptr.obj is None or ptr.obj.kind == 'extglobal':
                 base, off = self._addr_key(self.ptr_to_bv(ptr))
                 st.typed[(base, off, n)] = v
+            return
+        if isinstance(rty, (ir.StructTy, ir.ArrTy)):
+            n = self.mod.size_of(rty)
+            if val.size() != 8 * n:
+                raise OutOfReach('aggregate value of unexpected width')
+            self.store_bytes(st, ptr, [('x', val, k) for k in range(n)] if n > 1 else [val], ins)
             return
         raise OutOfReach('store of type %r' % (ty,))
 
@@ -968,6 +1009,18 @@ class LoopSpec:
         self.name = name
 
 
+def avr_name(dem):
+    """the demangled signature of the same declaration on a target where int is 16 bits (int16_t = int, int32_t = long)"""
+    import re as _re
+    head, sep, tail = dem.partition('(')
+    if not sep:
+        return dem
+    def sub(m):
+        uns, base = m.group(1) or '', m.group(2)
+        return uns + {'short': 'int', 'int': 'long'}[base]
+    return head + sep + _re.sub(r'\b(unsigned )?(short|int)\b', sub, tail)
+
+
 class Contract:
     def __init__(self, name, requires=None, ensures=None, assigns=None, loops=None, transparent=False,
                  pure=False, extern=False, props=(), unroll=None, model=None, ghost_init=None, inputs=None,
@@ -1132,6 +1185,8 @@ class Executor(Engine):
     # ---- top level ---------------------------------------------------------------
     def lookup_fn(self, demangled):
         names = self.mod.by_demangled.get(demangled)
+        if not names and self.mod.ptr_bits == 16:
+            names = self.mod.by_demangled.get(avr_name(demangled))
         if not names:
             raise KeyError('function not found in IR: %s' % demangled)
         # constructors/destructors: C1/C2 share a demangled name; prefer the base-object variant
@@ -1155,6 +1210,8 @@ class Executor(Engine):
                     n = max(n, self.mod.size_of(rt.pointee))
                 if n:
                     st.pc.append(z3.And(a != BV(0, self.pbits), z3.ULE(a, BV((1 << self.pbits) - 1 - n - 64, self.pbits))))
+            elif isinstance(rt, (ir.StructTy, ir.ArrTy)):
+                args.append(z3.BitVec('arg_' + nm, 8 * self.mod.size_of(rt)))
             else:
                 raise OutOfReach('parameter of type %r' % (t,))
         return args
@@ -1391,8 +1448,37 @@ class Executor(Engine):
                 raise PathEnd()
             elif op == 'call':
                 self._call(st, ins, work)
-            elif op == 'extractvalue' or op == 'insertvalue':
-                raise OutOfReach('aggregate register values')
+            elif op == 'extractvalue':
+                aty, av = ins.args[0]
+                agg = self.ev(st, aty, av)
+                off, ety = self._agg_path(aty, ins.extra)
+                rt = self.mod.resolve(ety)
+                n = self.mod.size_of(rt)
+                piece = simp(z3.Extract(8 * (off + n) - 1, 8 * off, agg))
+                if isinstance(rt, ir.IntTy):
+                    piece = piece if rt.bits == 8 * n else simp(z3.Extract(rt.bits - 1, 0, piece))
+                elif isinstance(rt, ir.PtrTy):
+                    piece = self.bv_to_ptr(st, piece)
+                st.frames[-1].regs[ins.dest] = piece
+            elif op == 'insertvalue':
+                aty, av = ins.args[0]
+                agg = self.ev(st, aty, av)
+                ety0, ev0 = ins.args[1]
+                elem = self.ev(st, ety0, ev0)
+                off, ety = self._agg_path(aty, ins.extra)
+                n = self.mod.size_of(self.mod.resolve(ety))
+                if isinstance(elem, (Ptr, FnPtr)):
+                    elem = self.ptr_to_bv(elem)
+                if elem.size() != 8 * n:
+                    elem = simp(z3.ZeroExt(8 * n - elem.size(), elem))
+                total = agg.size()
+                parts = []
+                if 8 * (off + n) < total:
+                    parts.append(z3.Extract(total - 1, 8 * (off + n), agg))
+                parts.append(elem)
+                if off > 0:
+                    parts.append(z3.Extract(8 * off - 1, 0, agg))
+                st.frames[-1].regs[ins.dest] = simp(z3.Concat(*parts)) if len(parts) > 1 else elem
             else:
                 raise OutOfReach('instruction %s' % op)
 
@@ -1618,6 +1704,8 @@ class Executor(Engine):
             return self.fresh('ret_' + tag, rt.bits)
         if isinstance(rt, ir.PtrTy):
             return Ptr(None, self.fresh('retp_' + tag, self.pbits))
+        if isinstance(rt, (ir.StructTy, ir.ArrTy)):
+            return self.fresh('ret_' + tag, 8 * self.mod.size_of(rt))
         raise OutOfReach('return type %r' % (rt,))
 
     def _apply_contract(self, st, ins, c, args, f2, dem):
